@@ -1,0 +1,58 @@
+package odt
+
+import (
+	"strings"
+	"testing"
+
+	"github.com/tsawler/tabula/rag"
+)
+
+// ODF outline levels run from 1 to 10; a level-10 heading used to fall back to level 1.
+func TestHeadingLevel10(t *testing.T) {
+	content := `<?xml version="1.0" encoding="UTF-8"?>
+<office:document-content xmlns:office="urn:oasis:names:tc:opendocument:xmlns:office:1.0"
+                         xmlns:text="urn:oasis:names:tc:opendocument:xmlns:text:1.0">
+  <office:body>
+    <office:text>
+      <text:h text:outline-level="10">Deep A</text:h>
+      <text:h text:style-name="Heading_20_10" text:outline-level="10">Deep B</text:h>
+      <text:p>Content</text:p>
+    </office:text>
+  </office:body>
+</office:document-content>`
+
+	path := createTestODT(t, content)
+
+	r, err := Open(path)
+	if err != nil {
+		t.Fatalf("Open failed: %v", err)
+	}
+	defer r.Close()
+
+	md, err := r.Markdown()
+	if err != nil {
+		t.Fatalf("Markdown() error = %v", err)
+	}
+	for _, want := range []string{"###### Deep A", "###### Deep B"} {
+		if !strings.Contains(md, want) {
+			t.Errorf("expected %q (level 10 capped at 6), got: %s", want, md)
+		}
+	}
+
+	md, err = r.MarkdownWithRAGOptions(ExtractOptions{}, rag.MarkdownOptions{HeadingLevelOffset: -7})
+	if err != nil {
+		t.Fatalf("MarkdownWithRAGOptions() error = %v", err)
+	}
+	for _, want := range []string{"### Deep A", "### Deep B"} {
+		if !strings.Contains(md, want+"\n") || strings.Contains(md, "#"+want) {
+			t.Errorf("expected %q (level 10 shifted by -7), got: %s", want, md)
+		}
+	}
+
+	if ok, level := detectBuiltInHeading("Heading_20_10"); !ok || level != 10 {
+		t.Errorf("detectBuiltInHeading(Heading_20_10) = %v, %d; want true, 10", ok, level)
+	}
+	if ok, level := detectBuiltInHeading("Heading_20_1"); !ok || level != 1 {
+		t.Errorf("detectBuiltInHeading(Heading_20_1) = %v, %d; want true, 1", ok, level)
+	}
+}
